@@ -53,4 +53,20 @@ example : atomEq (.bool true) (.num 1 false) = true := by decide +kernel
 example : construct poscDb .fraction (.atom (.bool true)) (.str (Sym.ofString "m")) .none
     = .ok ⟨⟨Sym.ofString "length", Sym.ofString "m"⟩, .fraction 1 0⟩ := by decide +kernel
 
+-- a list of 2 tuples of size 3: the FixedArray dimension is 2 in every form, CreateWithQuantity included
+example : createWithQuantity poscDb (.fixed 0) ⟨Sym.ofString "length", Sym.ofString "m"⟩
+      (.rows .list [[.num 1 true, .num 2 true, .num 3 true], [.num 4 true, .num 5 true, .num 6 true]]) false none
+    = construct poscDb (.fixed 2)
+      (.rows .list [[.num 1 true, .num 2 true, .num 3 true], [.num 4 true, .num 5 true, .num 6 true]])
+      (.str (Sym.ofString "m")) .none := by decide +kernel
+example : (construct poscDb (.fixed 2) (.rows .list [[.num 1 true], [.num 4 true, .num 5 true]])
+      (.str (Sym.ofString "m")) .none).toBool = true := by decide +kernel
+example : construct poscDb (.fixed 3) (.rows .list [[.num 1 true, .num 2 true, .num 3 true], [.num 4 true, .num 5 true, .num 6 true]])
+      (.str (Sym.ofString "m")) .none = .error .value := by decide +kernel
+-- `[("m", 1)]` as a unit is "a simple case" and stands for `m`
+example : obtainQuantity poscDb (.rows .list [[.str (Sym.ofString "m") none, .num 1 true]]) (.str (Sym.ofString "length") none)
+    = .ok ⟨Sym.ofString "length", Sym.ofString "m"⟩ := by decide +kernel
+example : elemsEq [.row [.num 1 true, .num 2 false]] [.row [.num 1 false, .num 2 true]] = true := by decide +kernel
+example : elemsEq [.row [.num 1 true]] [.atom (.num 1 true)] = false := by decide +kernel
+
 end Barril.Ctor
